@@ -22,7 +22,16 @@ impl DelayModel {
         DelayModel { delay, last_user: -1, last_value: 0, truth: Vec::new(), dropped: 0, filled: 0 }
     }
 
+    /// An increase repeats the last input for the frames it opens up, at once (the owner
+    /// announces them to the other peers in the same call); a decrease only changes where later
+    /// submissions land.
     pub fn set_delay(&mut self, delay: usize) {
+        if delay > self.delay && self.last_user >= 0 {
+            for _ in 0..delay - self.delay {
+                self.truth.push(self.last_value);
+                self.filled += 1;
+            }
+        }
         self.delay = delay;
     }
 
@@ -67,7 +76,8 @@ mod tests {
         assert_eq!(m.truth, vec![0, 0, 10]);
         assert!(!m.submit(0, 11));
         assert!(m.submit(1, 11));
-        m.set_delay(4); // increase: frames 4,5 repeat 11, then the new value
+        m.set_delay(4); // increase: frames 4,5 repeat 11 at once, then the new value
+        assert_eq!(m.truth, vec![0, 0, 10, 11, 11, 11]);
         assert!(m.submit(2, 12));
         assert_eq!(m.truth, vec![0, 0, 10, 11, 11, 11, 12]);
         m.set_delay(0); // decrease: submissions dropped until the queue has caught up
